@@ -360,3 +360,30 @@ def gz_jobs(Job, cfg=CFG_NDEBUG, tier="quick"):
                 defines=list(cfg[1]), extract=ext(g), tier=tier),
             Job("D_gz_inflate_loop_%s" % cfg[0], "harness/dfs_gz.c", "h_gz_loop", enforce=["gz_inflate_loop"], replace=["check_zlib_error_code"],
                 loops=True, defines=list(cfg[1]), extract=ext(g), tier=tier, cover=True, solver="portfolio")]
+
+
+# ---- flux adapters and PicTrack (C05 / C06 image-level clause) ----------------------------------------------------------
+ADAPTER_GROUP = ["SectorAddress_lt", "SectorAddress_eq", "sector_count", "Geometry_total_sectors", "PicTrack_track_len", "HxcAdapter_read_block", "HfeAdapter_find_sector", "HfeAdapter_read_block"]
+
+
+def adapter_jobs(Job, cfg=CFG_NDEBUG, tier="quick"):
+    def J(name, entry, enforce, **kw):
+        return Job("D_%s_%s" % (name, cfg[0]), "harness/dfs_adapters.c", entry, enforce=enforce, defines=list(cfg[1]),
+                   extract=ext(ADAPTER_GROUP), tier=tier, solver="portfolio", **kw)
+    uw = ["--unwindset", "h_all_256.0:66", "--unwinding-assertions"]
+    return [J("pictrack_track_len", "h_track_len", ["PicTrack_track_len"]),
+            J("sector_address_lt", "h_sa_lt", ["SectorAddress_lt"]),
+            J("sector_address_eq", "h_sa_eq", ["SectorAddress_eq"], replace=["SectorAddress_lt"]),
+            J("hxc_adapter_read_block", "h_hxc_read", ["HxcAdapter_read_block"], replace=["Geometry_total_sectors", "SectorAddress_eq"], loops=True, cover=True, cbmc=uw),
+            Job("D_hfe_adapter_find_sector_%s" % cfg[0], "harness/dfs_adapters.c", "h_hfe_find", enforce=["HfeAdapter_find_sector"],
+                replace=["SectorAddress_eq"], loops=True, defines=list(cfg[1]) + ["VERIF_FIND_ENFORCE"], extract=ext(ADAPTER_GROUP),
+                tier=tier, solver="portfolio"),
+            J("hfe_adapter_read_block", "h_hfe_read", ["HfeAdapter_read_block"], replace=["HfeAdapter_find_sector"], cover=True, cbmc=uw)]
+
+
+def c05_extra(Job, tier):
+    return adapter_jobs(Job)
+
+
+def c06_extra(Job, tier):            # noqa: F811
+    return trackcheck_jobs(Job) + adapter_jobs(Job)[1:]
